@@ -439,3 +439,107 @@ func H_C18_builtin_after_local_fn() {
 	}
 	vReach("end")
 }
+
+// a wide message (70 fields, as protoc emits for large messages): the verdict on a field does not depend
+// on how many fields stand before it; tags only, and again with a supplied rule for the last field
+type vWide70 struct {
+	F00 int `valid:"ge=5"`
+	F01 int
+	F02 int
+	F03 int
+	F04 int
+	F05 int `valid:"ge=5"`
+	F06 int
+	F07 int
+	F08 int
+	F09 int
+	F10 int
+	F11 int
+	F12 int
+	F13 int
+	F14 int
+	F15 int
+	F16 int
+	F17 int
+	F18 int
+	F19 int
+	F20 int
+	F21 int
+	F22 int
+	F23 int
+	F24 int
+	F25 int
+	F26 int
+	F27 int
+	F28 int
+	F29 int
+	F30 int
+	F31 int
+	F32 int
+	F33 int
+	F34 int
+	F35 int
+	F36 int
+	F37 int
+	F38 int
+	F39 int
+	F40 int
+	F41 int
+	F42 int
+	F43 int
+	F44 int
+	F45 int
+	F46 int
+	F47 int
+	F48 int
+	F49 int
+	F50 int
+	F51 int
+	F52 int
+	F53 int
+	F54 int
+	F55 int
+	F56 int
+	F57 int
+	F58 int
+	F59 int
+	F60 int
+	F61 int
+	F62 int `valid:"ge=5"`
+	F63 int `valid:"ge=5"`
+	F64 int `valid:"ge=5"`
+	F65 int `valid:"ge=5"`
+	F66 int
+	F67 int
+	F68 int
+	F69 int `valid:"ge=5"`
+}
+
+func H_C18_wide_struct_positions() {
+	o := &vWide70{}
+	pick := func(n string) int { return []int{3, 7}[vndChoice(n, 2)] } // 3 violates ge=5, 7 does not
+	vals := []int{pick("x00"), pick("x05"), pick("x62"), pick("x63"), pick("x64"), pick("x65"), pick("x69")}
+	o.F00, o.F05, o.F62, o.F63, o.F64, o.F65, o.F69 = vals[0], vals[1], vals[2], vals[3], vals[4], vals[5], vals[6]
+	o.F10, o.F40, o.F66 = 1, 2, 3 // untagged fields are never judged
+	names := []string{"F00", "F05", "F62", "F63", "F64", "F65", "F69"}
+	var err error
+	if vndBool("withRM") {
+		err = Struct(o, NewRule().Set("F69", "ge=5"))
+	} else {
+		err = Struct(o)
+	}
+	text := ""
+	if err != nil {
+		text = err.Error()
+	}
+	n := 0
+	for i, name := range names {
+		bad := Var(vals[i], "ge=5") != nil
+		if bad {
+			n++
+		}
+		vAssert(strings.Contains(text, "\"vWide70."+name+"\"") == bad, "C18 wide struct: field "+name+" has Var's verdict")
+	}
+	vAssert(vCountClauses(err) == n, "C18 wide struct: one clause per violated field, no other")
+	vReach("end")
+}
